@@ -121,3 +121,72 @@ Example C06_example :
   rget ([84], id_v s_alg (1, 1, 0)%Z, 7%Z) (refdict c06_ops) = None /\
   rget ([84], id_v s_alg2 (1, 1, 0)%Z, 2%Z) (refdict c06_ops) = None.
 Proof. vm_compute. repeat split; reflexivity. Qed.
+
+(* ---- histories with refused catalogue-table writes (Model/StoreFault.v) ----------------
+   A history is a list of client calls `(w, ops)`; the w-th write of the call
+   to one of the five name tables is refused (OSError), the call ends there,
+   the database process carries on.  `refdict_f digest gs` is the reference
+   dictionary carried along such a run: an update that answered records its
+   content, the operation that raised and the ones the call never reached
+   record nothing (with nothing armed it is `refdict`:
+   C06_refdict_faults_conservative). *)
+From DV Require Import Model.StoreFault Proofs.StoreFaultProofs Proofs.StoreFaultRef.
+
+Theorem C06_roundtrip_faults : forall digest,
+  (forall a b, digest a = digest b -> a = b) ->
+  forall gs r tn id,
+  Forall plain_group gs -> plain tn -> plain_id id ->
+  let m := refdict_f digest gs in
+  let rep := snd (load1 (run_f digest db0 gs) r tn id) in
+  (forall c, rget (tn, id, r) m = Some c -> rep = RLoaded (Some c)) /\
+  (rget (tn, id, r) m = None ->
+   forall r' c, rget (tn, id, r') m = Some c ->
+     (forall r'' c'', rget (tn, id, r'') m = Some c'' -> (r'' <= r')%Z) ->
+     rep = RLoaded (Some c)) /\
+  ((forall r', rget (tn, id, r') m = None) -> rep = RLoaded None).
+Proof. intros digest Hinj gs r tn id. exact (SFR_load_ref digest Hinj gs r tn id). Qed.
+Print Assumptions C06_roundtrip_faults.
+
+Theorem C06_refdict_faults_conservative : forall digest gss,
+  refdict_f digest (map (fun ops => (0, ops)) gss) = refdict (concat gss).
+Proof. exact SFR_refdict_0. Qed.
+Print Assumptions C06_refdict_faults_conservative.
+
+(* the key of an identity is stable through refused writes as well *)
+Theorem C06_key_stable_faults : forall digest gs gs' key tn id,
+  Forall plain_group gs -> Forall plain_group gs' ->
+  resolves (dcat (run_f digest db0 gs)) key tn id ->
+  resolves (dcat (run_f digest db0 (gs ++ gs'))) key tn id.
+Proof.
+  intros digest gs gs' key tn id Hp Hp' H. unfold run_f, run_g. rewrite fold_left_app.
+  destruct (SF_run digest gs db0 (SF_Iall0 digest) Hp) as [HA _].
+  destruct (SF_run digest gs' _ HA Hp') as [_ X].
+  eapply SP_resolves_ext; eauto.
+Qed.
+Print Assumptions C06_key_stable_faults.
+
+(* non-vacuity: a two-value update whose sixth write (the row of the second
+   value) is refused: the first value is stored and comes back, the second was
+   never stored; after the retry both come back *)
+Definition id_w (vn : name) : ident :=
+  mkid [116] s_alg (1, 0, 0)%Z [115] (1, 0, 0)%Z vn (1, 0, 0)%Z.
+
+Definition c06_faults : list fgroup :=
+  [(6, [OUpd 1 [84] (id_w [118]) 21 None; OUpd 1 [84] (id_w [119]) 22 None])].
+
+Example C06_example_faults :
+  Forall plain_group c06_faults /\
+  let d := run_f idig db0 c06_faults in
+  snd (load1 d 1 [84] (id_w [118])) = RLoaded (Some 21%Z) /\
+  snd (load1 d 1 [84] (id_w [119])) = RLoaded None /\
+  rget ([84], id_w [118], 1%Z) (refdict_f idig c06_faults) = Some 21%Z /\
+  rget ([84], id_w [119], 1%Z) (refdict_f idig c06_faults) = None /\
+  let d' := run_f idig d [(0, [OUpd 1 [84] (id_w [118]) 21 None;
+                               OUpd 1 [84] (id_w [119]) 22 None])] in
+  snd (load1 d' 3 [84] (id_w [119])) = RLoaded (Some 22%Z).
+Proof.
+  split.
+  - unfold c06_faults, plain_group. repeat (apply Forall_cons || apply Forall_nil);
+      cbn; unfold plain_id, plain; cbn; intuition discriminate.
+  - vm_compute. repeat split; reflexivity.
+Qed.
